@@ -715,6 +715,10 @@ func main() {
 		random(os.Args[2:])
 	case "script":
 		script(os.Args[2:])
+	case "bufreplay": // caller-memory class, see buf.go
+		bufReplay(os.Args[2:])
+	case "bufrandom":
+		bufRandom(os.Args[2:])
 	default:
 		os.Exit(3)
 	}
